@@ -100,11 +100,12 @@ Theorem lut_lookup_inside_read_footprint :
   forall x m r v i,
     lut_index r = Some i -> 0 <= i <= 7 ->
     (prec_elem_ofm (r0 r cmd0_NPU_SET_OFM_PRECISION) =? 4) = false ->
+    (prec_elem_ofm (r0 r cmd0_NPU_SET_OFM_PRECISION) =? 2) = false ->
     (if ofm_signed r then -128 <= v <= 127 else 0 <= v <= 255) ->
     exists a, activate x m r v = rd8 (get_bank m SHRAM) a /\
               x_lut_addr x + i * 256 <= a < x_lut_addr x + i * 256 + lut_read_bytes 1 i.
 Proof.
-  intros x m r v i Hl Hi H8 Hv. exists (lut_read_addr (x_lut_addr x) i (ofm_signed r) v). split.
+  intros x m r v i Hl Hi H8 H16 Hv. exists (lut_read_addr (x_lut_addr x) i (ofm_signed r) v). split.
   - apply activate_reads_lut_read_addr; assumption.
   - apply lut_read_inside_footprint; assumption.
 Qed.
